@@ -625,18 +625,4 @@ end Pm.LexModel.Proof
 
 section Audit
 open Pm.LexModel.Proof
-#print axioms go_inv
-#print axioms lexString_fill
-#print axioms lexString_total
-#print axioms lex_escape1
-#print axioms lex_octal
-#print axioms lexString_plain
-#print axioms lexString_plain_long
-#print axioms runInc_inv
-#print axioms runInc_too_deep
-#print axioms scanAt_cycle
-#print axioms strtol0_token
-#print axioms strtolong_range
-#print axioms strtodouble_defined
-#print axioms cfgAccept_mandatory
 end Audit
